@@ -23,6 +23,7 @@ import Osmium.Lemmas.GeomWkbParse
 import Osmium.Lemmas.GeomSpec
 import Osmium.Lemmas.GeomText
 import Osmium.Lemmas.GeomD2S
+import Osmium.Generated.Consts
 
 namespace Osmium.Geom.C17
 
@@ -284,5 +285,11 @@ theorem double2string_trim_refuted_before_fix : ¬ D2STrimExact .beforeFix maxDo
 
 /-- (documentation) … and "0" ran off the front of the buffer -/
 theorem precision0_zero_underread_before_fix : double2string .beforeFix ['0'] = .error .underread := rfl
+
+/-- Tie of the geometry models' constants to the CURRENT source (regenerated `Generated/Consts.lean`). -/
+theorem consts_tie_geom :
+    Wkb.wkbSRID = Osmium.Generated.Consts.wkbSRIDFlag ∧ maxDoubleLengthFixed = Osmium.Generated.Consts.maxDoubleLength ∧
+    undefinedCoordinate = (Osmium.Generated.Consts.undefinedCoordinate : Int) ∧
+    Osmium.Generated.Consts.wkbPoint = 1 ∧ Osmium.Generated.Consts.wkbLineString = 2 ∧ Osmium.Generated.Consts.wkbPolygon = 3 ∧ Osmium.Generated.Consts.wkbMultiPolygon = 6 := by decide
 
 end Osmium.Geom.C17
